@@ -476,7 +476,15 @@ impl<KT: DbMapKeyType> VarFileKeyCache<KT> {
         // add new.
         {
             let free_piece_offset = self.0.pop_free_piece_list(new_piece_size)?;
+            let mut new_piece_size = new_piece_size;
             let new_piece_offset = if !free_piece_offset.is_zero() {
+                // a free piece from the large piece list can be bigger than requested.
+                // the piece keeps its own size, or the rest of it would be lost.
+                self.0.seek_from_start(free_piece_offset)?;
+                let free_piece_size = self.0.read_piece_size()?;
+                if free_piece_size > new_piece_size {
+                    new_piece_size = free_piece_size;
+                }
                 self.0.seek_from_start(free_piece_offset)?;
                 free_piece_offset
             } else {
